@@ -16,6 +16,7 @@ package forward
 //@   requires req != nil && s != nil
 //@   modifies everything
 //@   ensures paired: calls(s.stateListener) == 2 && callarg(s.stateListener, 0, 1) == 0 && callarg(s.stateListener, 1, 1) == 1 && calls(s.next.ServeHTTP) == 1
+//@   ensures aborts_are_not_swallowed: !panicked(s.next.ServeHTTP)
 //@   ensures_panic paired_when_forwarding_aborts: calls(s.next.ServeHTTP) == 1 ==> calls(s.stateListener) == 2 && callarg(s.stateListener, 1, 1) == 1
 
 // ---- C08: the Director of the pre-configured ReverseProxy -------------------------------------------------------------
@@ -139,3 +140,10 @@ package forward
 //@ theorem {C08} c08_hop_by_hop_headers_not_forwarded: forall k string :: c08_pipeline() && k != "X-Forwarded-For" && (c08_conn(k) || c08_hop(k)) ==> c08_out(k) == ""
 //@ theorem {C08} c08_forwarding_headers_reach_the_backend_unless_named_in_connection: forall k string :: c08_pipeline() && c08_fixed_hop_set() && c08_fwd(k) && k != "X-Forwarded-For" && !c08_conn(k) ==> c08_out(k) == c08_dir(k)
 //@ theorem {C08} c08_forwarding_headers_survive_hop_removal: forall k string :: c08_pipeline() && c08_fixed_hop_set() && c08_fwd(k) && k != "X-Forwarded-For" ==> c08_out(k) == c08_dir(k)
+
+// forward.New wires the proxy: the Director above, and the library's default error handler (C16: gateway statuses).
+//@ func New
+//@   props C08 C16
+//@   modifies external
+//@   wiring ReverseProxy.Director=New$1 ReverseProxy.ErrorHandler=DefaultHandler.ServeHTTP
+//@   ensures result != nil && fresh(result)
